@@ -131,7 +131,9 @@ Definition ape_init (fuel : nat) : P (option ape_data) :=
         (match af_header fm, af_footer fm with
          | Some header, footer =>
            let dat := header + 32 in
-           let end_ := dat + size in
+           fsize <~ ape_get_size ;;
+           (* a header claiming more than the file holds: the tag ends where the file ends *)
+           let end_ := Z.min (dat + size) (Z.max fsize dat) in
            p_seek (end_ - 32) 0 ;;~
            b <~ p_read 8 ;;
            pret (header, (if list_eqb b ape_APETAGEX then Some (end_ - 32) else footer), dat, end_)
